@@ -69,6 +69,8 @@ def gen_stream_workload(r, max_values=4, small=False, force_codec=None, allow_f2
                 values[i] = U.gen_value(r, desc, vc)
     w = {'desc': desc, 'values': values, 'codec': codec, 'decoder': decoder_for(codec),
          'use_spec': use_spec, 'open_types': U.has_open(desc)}
+    if r.random() < 0.25:
+        w['style'] = 'class'        # types declared as user subclasses with class-level attributes
     if variants and decoder_for(codec) == 'ber' and r.random() < 0.25:
         from simkit import corrupt
         w['variant'] = corrupt.gen_variant_ops(r)
@@ -144,6 +146,8 @@ def count_run(ctr, cons, st, conf, wl):
         inc('codec.ber-variant-forms')
     if wl.w.get('scale'):
         inc('probe.scale_shape')
+    if wl.w.get('style'):
+        inc('probe.class_style_types')
     inc('spec.%s' % ('with' if wl.use_spec else 'without'))
     if conf.get('threshold') is not None:
         inc('knob.threshold.%s' % conf['threshold'])
